@@ -11,8 +11,10 @@ import (
 	"fmt"
 	"grog/internal/label"
 	"reflect"
+	"runtime"
 	"runtime/debug"
 	"sort"
+	"strconv"
 	"strings"
 	"sync"
 	"sync/atomic"
@@ -45,6 +47,11 @@ type Thread struct {
 	enabledAt int
 	inEnabled bool
 	held      map[any]int // virtual locks currently held (lockset race detection)
+	// adopted: an unmanaged goroutine that reached its first scheduling point. Several of them may arrive
+	// in an order decided by the Go runtime; rgoid (the runtime's goroutine id, which follows creation
+	// order with GOMAXPROCS=1) is used to give them logical ids that do not depend on the arrival order.
+	adopted bool
+	rgoid   int64
 }
 
 // Step is one recorded choice of an execution.
@@ -88,6 +95,7 @@ type Result struct {
 type Sched struct {
 	mu       sync.Mutex
 	threads  []*Thread
+	numbered int // threads[:numbered] have their final logical ids
 	byGoid   map[int64]*Thread
 	last     *Thread
 	cfg      Config
@@ -137,10 +145,42 @@ func (s *Sched) adopt(name string) *Thread {
 	if th := s.byGoid[g]; th != nil {
 		return th
 	}
-	th := &Thread{ID: len(s.threads), Name: name, grant: make(chan struct{}), state: stRunning, goid: g}
+	th := &Thread{ID: len(s.threads), Name: name, grant: make(chan struct{}), state: stRunning, goid: g, adopted: true, rgoid: runtimeGoid()}
 	s.threads = append(s.threads, th)
 	s.byGoid[g] = th
 	return th
+}
+
+// runtimeGoid parses the goroutine id out of runtime.Stack (slow; only called once per adopted goroutine).
+func runtimeGoid() int64 {
+	var buf [64]byte
+	n := runtime.Stack(buf[:], false)
+	f := strings.Fields(string(buf[:n]))
+	if len(f) >= 2 {
+		if id, err := strconv.ParseInt(f[1], 10, 64); err == nil {
+			return id
+		}
+	}
+	return 0
+}
+
+// renumber gives the threads registered since the last scheduling step their logical ids: goroutines
+// started through Go keep their (deterministic) spawn order and come first, adopted goroutines follow
+// in the order of their creation. Called with s.mu held, when every goroutine is blocked or parked.
+func (s *Sched) renumber() {
+	fresh := s.threads[s.numbered:]
+	if len(fresh) > 1 {
+		sort.SliceStable(fresh, func(i, j int) bool {
+			if fresh[i].adopted != fresh[j].adopted {
+				return !fresh[i].adopted
+			}
+			return fresh[i].adopted && fresh[i].rgoid < fresh[j].rgoid
+		})
+	}
+	for i, th := range fresh {
+		th.ID = s.numbered + i
+	}
+	s.numbered = len(s.threads)
 }
 
 func (s *Sched) park(th *Thread, site string) {
@@ -523,6 +563,7 @@ func (s *Sched) loop() {
 	for {
 		synctest.Wait()
 		s.mu.Lock()
+		s.renumber()
 		if s.bodyDone {
 			s.res.BodyDone = true
 			if s.cfg.NoDrain {
